@@ -439,4 +439,30 @@ def Guard (s : Str) (indent : Nat) (single : Bool) : Bool :=
   else if hasSub (tripleOf q) s && hasSub (tripleOf (otherQuote q)) s then GuardS q s
   else GuardM indent s
 
+/-! ### printing contexts: the value of `.indent` in force when `str()` is called on a string parameter -/
+
+/-- where the ExplorerScript decompiler (first five) and the SsbScript decompiler (last) print a string parameter -/
+inductive PrintCtx where
+  /-- argument of an operation statement, also with an inline context `op<actor 3>(…)`:
+      `SimpleSimpleOpWriteHandler._single_param_to_string` sets `.indent = decompiler.indent` -/
+  | opArg
+  /-- `case menu(…):` inside the braces of a switch: `_case_header_for` sets `.indent = decompiler.indent` -/
+  | menuHeader
+  /-- the text below `case k:` / `default:` inside the braces of a message switch (its own `Blk`) -/
+  | msgText
+  /-- `switch ( Op(…) )`: `_switch_header_for` is a static method and prints with `str(x)`; `.indent` keeps the
+      value 0 given by the constructor -/
+  | switchHeader
+  /-- SsbScript: every statement sits directly in the routine body -/
+  | ssbsArg
+  deriving DecidableEq, Repr
+
+/-- `.indent` when the parameter is printed; `d` = number of blocks (`if`, `forever`, …) around the statement inside the routine -/
+def ctxIndent : PrintCtx → Nat → Nat
+  | .opArg, d => d + 1
+  | .menuHeader, d => d + 2
+  | .msgText, d => d + 3
+  | .switchHeader, _ => 0
+  | .ssbsArg, _ => 1
+
 end ESV.Lit
